@@ -98,3 +98,384 @@ Proof.
   unfold solve_checked. destruct (solve_multi_checked A [b]) as [[|s [|]]|] eqn:E; try discriminate.
   intros H; inversion H; subst. apply solve_multi_checked_sound in E. inversion E; subst. assumption.
 Qed.
+
+(* ====================================================================== *)
+(* finite sums                                                             *)
+(* ====================================================================== *)
+From MM Require Import Spec.Fit.
+
+Lemma sum_n_ext f g n : (forall i, (i < n)%nat -> f i == g i) -> sum_n f n == sum_n g n.
+Proof.
+  revert f g. induction n as [|n IH]; intros f g H; cbn [sum_n]; [reflexivity|].
+  rewrite (H O) by lia. rewrite (IH (fun i => f (S i)) (fun i => g (S i))); [reflexivity|].
+  intros i Hi. apply H. lia.
+Qed.
+Lemma sum_n_add f g n : sum_n (fun i => f i + g i) n == sum_n f n + sum_n g n.
+Proof. revert f g. induction n as [|n IH]; intros f g; cbn [sum_n]; [ring|]. rewrite IH. ring. Qed.
+Lemma sum_n_scal c f n : sum_n (fun i => c * f i) n == c * sum_n f n.
+Proof. revert f. induction n as [|n IH]; intros f; cbn [sum_n]; [ring|]. rewrite IH. ring. Qed.
+Lemma sum_n_zero n : sum_n (fun _ => 0) n == 0.
+Proof. induction n as [|n IH]; cbn [sum_n]; [reflexivity|]. rewrite IH. ring. Qed.
+Lemma sum_n_swap (f : nat -> nat -> Q) n m :
+  sum_n (fun i => sum_n (fun j => f i j) m) n == sum_n (fun j => sum_n (fun i => f i j) n) m.
+Proof.
+  revert f. induction n as [|n IH]; intros f; cbn [sum_n].
+  - symmetry. apply sum_n_zero.
+  - rewrite IH. rewrite <- sum_n_add. reflexivity.
+Qed.
+Lemma sum_n_nonneg f n : (forall i, (i < n)%nat -> 0 <= f i) -> 0 <= sum_n f n.
+Proof.
+  revert f. induction n as [|n IH]; intros f H; cbn [sum_n]; [apply Qle_refl|].
+  assert (0 <= f O) by (apply H; lia).
+  assert (0 <= sum_n (fun i => f (S i)) n) by (apply IH; intros i Hi; apply H; lia). lra.
+Qed.
+Lemma sum_n_zero_terms f n : (forall i, (i < n)%nat -> 0 <= f i) -> sum_n f n == 0 ->
+  forall i, (i < n)%nat -> f i == 0.
+Proof.
+  revert f. induction n as [|n IH]; intros f H E i Hi; [lia|]. cbn [sum_n] in E.
+  assert (H0 : 0 <= f O) by (apply H; lia).
+  assert (H1 : 0 <= sum_n (fun i => f (S i)) n) by (apply sum_n_nonneg; intros k Hk; apply H; lia).
+  destruct i as [|i]; [lra|].
+  apply (IH (fun i => f (S i))); [intros k Hk; apply H; lia | lra | lia].
+Qed.
+Lemma sum_n_single (f : nat -> Q) n j : (j < n)%nat -> (forall i, (i < n)%nat -> i <> j -> f i == 0) ->
+  sum_n f n == f j.
+Proof.
+  revert f j. induction n as [|n IH]; intros f j Hj H; [lia|]. cbn [sum_n]. destruct j as [|j].
+  - rewrite (sum_n_ext _ (fun _ => 0)); [rewrite sum_n_zero; ring|]. intros i Hi. apply H; lia.
+  - rewrite (H O) by lia. rewrite (IH (fun i => f (S i)) j); [ring | lia |]. intros i Hi Hn. apply H; lia.
+Qed.
+
+(* ---------- lists as indexed families ---------- *)
+Lemma vn_cons_S x a i : vn (x :: a) (S i) = vn a i.
+Proof. reflexivity. Qed.
+Lemma vn_cons_O x a : vn (x :: a) O = x.
+Proof. reflexivity. Qed.
+
+Lemma dot3_sum a w b n : length a = n -> length w = n -> length b = n ->
+  dot3 a w b == sum_n (fun i => vn a i * vn w i * vn b i) n.
+Proof.
+  revert a w b. induction n as [|n IH]; intros [|x a] [|u w] [|y b] Ha Hw Hb; try discriminate; [reflexivity|].
+  rewrite dot3_cons. cbn [sum_n]. rewrite (IH a w b) by (cbn in *; lia). reflexivity.
+Qed.
+Lemma dot_sum a b n : length a = n -> length b = n -> dot a b == sum_n (fun i => vn a i * vn b i) n.
+Proof.
+  revert a b. induction n as [|n IH]; intros [|x a] [|y b] Ha Hb; try discriminate; [reflexivity|].
+  rewrite dot_cons. cbn [sum_n]. rewrite (IH a b) by (cbn in *; lia). reflexivity.
+Qed.
+Lemma nth_map_lt {A B} (f : A -> B) (l : list A) (d : A) (d' : B) j : (j < length l)%nat ->
+  nth j (map f l) d' = f (nth j l d).
+Proof. intros H. rewrite (nth_indep _ d' (f d)) by (now rewrite map_length). apply map_nth. Qed.
+Lemma vn_map {A} (f : A -> Q) (l : list A) (d : A) i : (i < length l)%nat -> vn (map f l) i = f (nth i l d).
+Proof. intros H. unfold vn. rewrite (nth_indep _ 0 (f d)) by (now rewrite map_length). apply map_nth. Qed.
+
+Lemma Forall2_Qeq_vn a b : Forall2 Qeq a b <-> length a = length b /\ forall i, (i < length a)%nat -> vn a i == vn b i.
+Proof.
+  split.
+  - induction 1 as [|x y a b Hxy Hab [IHl IHv]]; [split; [reflexivity | cbn; lia]|].
+    split; [cbn; now rewrite IHl|]. intros [|i] Hi; [exact Hxy | apply IHv; cbn in Hi; lia].
+  - revert b. induction a as [|x a IH]; intros [|y b] [Hl Hv]; try discriminate; constructor.
+    + apply (Hv O). cbn. lia.
+    + apply IH. split; [cbn in Hl; lia|]. intros i Hi. apply (Hv (S i)). cbn. lia.
+Qed.
+
+(* ====================================================================== *)
+(* normal equations <-> minimiser                                          *)
+(* ====================================================================== *)
+Section LeastSquares.
+Variables (n : nat) (cols : list (list Q)) (w y : list Q).
+Hypothesis Hwf : wf_design n cols w y.
+Let k := length cols.
+
+Lemma col_len j : (j < k)%nat -> length (nth j cols []) = n.
+Proof. intros Hj. destruct Hwf as (_ & _ & F). rewrite Forall_forall in F. apply F, nth_In, Hj. Qed.
+Lemma len_y : length y = n. Proof. apply Hwf. Qed.
+Lemma len_w : length w = n. Proof. apply Hwf. Qed.
+
+(* row j of the normal equations, in index notation *)
+Lemma normal_rhs_vn j : (j < k)%nat ->
+  vn (normal_rhs cols w y) j == sum_n (fun i => Xe cols j i * vn w i * vn y i) n.
+Proof.
+  intros Hj. unfold normal_rhs. rewrite (vn_map _ _ []) by exact Hj.
+  apply dot3_sum; [now apply col_len | apply len_w | apply len_y].
+Qed.
+Lemma normal_lhs_vn beta j : (j < k)%nat -> length beta = k ->
+  vn (mat_vec (normal_lhs cols w) beta) j == sum_n (fun i => Xe cols j i * vn w i * fit_at cols beta i) n.
+Proof.
+  intros Hj Hb. unfold mat_vec, normal_lhs. rewrite (vn_map _ _ []) by (now rewrite map_length).
+  rewrite (nth_map_lt _ cols [] [] j Hj).
+  rewrite (dot_sum _ _ k) by (rewrite ?map_length; auto).
+  rewrite (sum_n_ext _ (fun l => sum_n (fun i => Xe cols j i * vn w i * (vn beta l * Xe cols l i)) n)).
+  - rewrite sum_n_swap. apply sum_n_ext. intros i Hi. unfold fit_at. fold k. now rewrite sum_n_scal.
+  - intros l Hl. rewrite (vn_map _ _ []) by exact Hl.
+    rewrite (dot3_sum _ _ _ n) by (try apply col_len; auto; apply len_w).
+    rewrite Qmult_comm, <- sum_n_scal. apply sum_n_ext. intros i Hi. unfold Xe. ring.
+Qed.
+
+(* the normal equations say exactly that the weighted residual is orthogonal to every term *)
+Lemma normal_eq_orth beta : length beta = k ->
+  (Forall2 Qeq (mat_vec (normal_lhs cols w) beta) (normal_rhs cols w y) <->
+   forall j, (j < k)%nat -> orth_at cols w y beta j == 0).
+Proof.
+  intros Hb. rewrite Forall2_Qeq_vn. unfold mat_vec at 1 2, normal_lhs at 1 2, normal_rhs at 1. rewrite !map_length. fold k.
+  assert (E : forall j, (j < k)%nat -> orth_at cols w y beta j ==
+            vn (normal_rhs cols w y) j - vn (mat_vec (normal_lhs cols w) beta) j).
+  { intros j Hj. rewrite normal_rhs_vn, normal_lhs_vn by auto. unfold orth_at. rewrite len_y.
+    setoid_replace (sum_n (fun i => Xe cols j i * vn w i * vn y i) n - sum_n (fun i => Xe cols j i * vn w i * fit_at cols beta i) n)
+      with (sum_n (fun i => Xe cols j i * vn w i * vn y i) n + sum_n (fun i => (-1) * (Xe cols j i * vn w i * fit_at cols beta i)) n)
+      by (rewrite sum_n_scal; ring).
+    rewrite <- sum_n_add. apply sum_n_ext. intros i Hi. unfold resid_at. ring. }
+  split.
+  - intros [_ H] j Hj. rewrite E by exact Hj. rewrite (H j Hj). ring.
+  - intros H. split; [reflexivity|]. intros j Hj. specialize (H j Hj). rewrite E in H by exact Hj. lra.
+Qed.
+
+(* S(beta') = S(beta) - 2 sum_j (beta'_j - beta_j) g_j(beta) + sum_i w_i (f_{beta'-beta}(x_i))^2 *)
+Definition dfit (beta beta' : list Q) (i : nat) : Q := sum_n (fun j => (vn beta' j - vn beta j) * Xe cols j i) k.
+
+Lemma SSR_expand beta beta' :
+  SSR cols w y beta' == SSR cols w y beta
+     - 2 * sum_n (fun j => (vn beta' j - vn beta j) * orth_at cols w y beta j) k
+     + sum_n (fun i => vn w i * (dfit beta beta' i * dfit beta beta' i)) n.
+Proof.
+  unfold SSR. rewrite len_y.
+  assert (R : forall i, resid_at cols y beta' i == resid_at cols y beta i - dfit beta beta' i).
+  { intros i. unfold resid_at, fit_at, dfit. fold k.
+    setoid_replace (vn y i - sum_n (fun j => vn beta j * Xe cols j i) k - sum_n (fun j => (vn beta' j - vn beta j) * Xe cols j i) k)
+      with (vn y i - (sum_n (fun j => vn beta j * Xe cols j i) k + sum_n (fun j => (vn beta' j - vn beta j) * Xe cols j i) k)) by ring.
+    rewrite <- sum_n_add. apply Qplus_comp; [reflexivity|]. apply Qopp_comp. apply sum_n_ext. intros j Hj. ring. }
+  assert (C : sum_n (fun j => (vn beta' j - vn beta j) * orth_at cols w y beta j) k ==
+              sum_n (fun i => vn w i * (resid_at cols y beta i * dfit beta beta' i)) n).
+  { unfold orth_at. rewrite len_y.
+    rewrite (sum_n_ext _ (fun j => sum_n (fun i => (vn beta' j - vn beta j) * (Xe cols j i * vn w i * resid_at cols y beta i)) n))
+      by (intros j Hj; now rewrite sum_n_scal).
+    rewrite sum_n_swap. apply sum_n_ext. intros i Hi. unfold dfit.
+    setoid_replace (vn w i * (resid_at cols y beta i * sum_n (fun j => (vn beta' j - vn beta j) * Xe cols j i) k))
+      with ((vn w i * resid_at cols y beta i) * sum_n (fun j => (vn beta' j - vn beta j) * Xe cols j i) k) by ring.
+    rewrite <- sum_n_scal. apply sum_n_ext. intros j Hj. ring. }
+  rewrite C.
+  setoid_replace (sum_n (fun i => vn w i * (resid_at cols y beta i * resid_at cols y beta i)) n
+                  - 2 * sum_n (fun i => vn w i * (resid_at cols y beta i * dfit beta beta' i)) n
+                  + sum_n (fun i => vn w i * (dfit beta beta' i * dfit beta beta' i)) n)
+    with (sum_n (fun i => vn w i * (resid_at cols y beta i * resid_at cols y beta i)) n
+          + (sum_n (fun i => (-2) * (vn w i * (resid_at cols y beta i * dfit beta beta' i))) n
+          + sum_n (fun i => vn w i * (dfit beta beta' i * dfit beta beta' i)) n))
+    by (rewrite sum_n_scal; ring).
+  rewrite <- !sum_n_add. apply sum_n_ext. intros i Hi. rewrite R. ring.
+Qed.
+
+Hypothesis Hw : forall i, (i < n)%nat -> 0 <= vn w i.
+
+Lemma quad_nonneg beta beta' : 0 <= sum_n (fun i => vn w i * (dfit beta beta' i * dfit beta beta' i)) n.
+Proof.
+  apply sum_n_nonneg. intros i Hi. apply Qmult_le_0_compat; [now apply Hw|].
+  generalize (dfit beta beta' i). intros q. nra.
+Qed.
+
+(* orthogonality => minimiser *)
+Lemma orth_minimises beta : (forall j, (j < k)%nat -> orth_at cols w y beta j == 0) ->
+  forall beta', SSR cols w y beta <= SSR cols w y beta'.
+Proof.
+  intros H beta'. rewrite (SSR_expand beta beta').
+  rewrite (sum_n_ext _ (fun _ => 0)) by (intros j Hj; rewrite (H j Hj); ring).
+  rewrite sum_n_zero. pose proof (quad_nonneg beta beta'). lra.
+Qed.
+
+(* beta + t e_j as a list *)
+Definition bump (beta : list Q) (j : nat) (t : Q) : list Q :=
+  map (fun l => vn beta l + (if (l =? j)%nat then t else 0)) (seq 0 k).
+Lemma bump_len beta j t : length (bump beta j t) = k.
+Proof. unfold bump. now rewrite map_length, seq_length. Qed.
+Lemma bump_vn beta j t l : (l < k)%nat -> vn (bump beta j t) l = vn beta l + (if (l =? j)%nat then t else 0).
+Proof. intros Hl. unfold bump. rewrite (vn_map _ _ O) by (now rewrite seq_length). now rewrite seq_nth. Qed.
+
+(* minimiser => orthogonality: move along e_j by t = g_j / (c_j + 1) *)
+Lemma minimiser_orth beta :
+  (forall beta', length beta' = k -> SSR cols w y beta <= SSR cols w y beta') ->
+  forall j, (j < k)%nat -> orth_at cols w y beta j == 0.
+Proof.
+  intros Hmin j Hj.
+  set (g := orth_at cols w y beta j).
+  set (c := sum_n (fun i => vn w i * (Xe cols j i * Xe cols j i)) n).
+  assert (Hc : 0 <= c).
+  { apply sum_n_nonneg. intros i Hi. apply Qmult_le_0_compat; [now apply Hw|]. generalize (Xe cols j i). intros q. nra. }
+  set (t := g / (c + 1)).
+  pose proof (Hmin (bump beta j t) (bump_len _ _ _)) as M.
+  rewrite (SSR_expand beta (bump beta j t)) in M.
+  assert (D : forall i, dfit beta (bump beta j t) i == t * Xe cols j i).
+  { intros i. unfold dfit. rewrite (sum_n_single _ k j Hj).
+    - rewrite bump_vn by exact Hj. rewrite Nat.eqb_refl. ring.
+    - intros l Hl Hne. rewrite bump_vn by exact Hl. apply Nat.eqb_neq in Hne. rewrite Hne. ring. }
+  assert (L : sum_n (fun l => (vn (bump beta j t) l - vn beta l) * orth_at cols w y beta l) k == t * g).
+  { rewrite (sum_n_single _ k j Hj).
+    - rewrite bump_vn by exact Hj. rewrite Nat.eqb_refl. unfold g. ring.
+    - intros l Hl Hne. rewrite bump_vn by exact Hl. apply Nat.eqb_neq in Hne. rewrite Hne. ring. }
+  assert (Q2 : sum_n (fun i => vn w i * (dfit beta (bump beta j t) i * dfit beta (bump beta j t) i)) n == t * t * c).
+  { unfold c. rewrite <- sum_n_scal. apply sum_n_ext. intros i Hi. rewrite D. ring. }
+  rewrite L, Q2 in M.
+  assert (Hineq : 0 <= - 2 * (t * g) + t * t * c) by lra.
+  assert (Hc1 : ~ c + 1 == 0) by lra.
+  assert (Et : - 2 * (t * g) + t * t * c == - (g * g) * (c + 2) / ((c + 1) * (c + 1))).
+  { unfold t. field. exact Hc1. }
+  rewrite Et in Hineq.
+  assert (Hpos : 0 < (c + 1) * (c + 1)) by nra.
+  assert (Hnum : 0 <= - (g * g) * (c + 2)).
+  { apply Qmult_le_r with (z := / ((c + 1) * (c + 1))); [now apply Qinv_lt_0_compat|].
+    rewrite Qmult_0_l. exact Hineq. }
+  assert (g * g <= 0) by nra.
+  nra.
+Qed.
+
+(* C15 main statement: normal equations <-> minimiser of the weighted sum of squares *)
+Theorem normal_eq_iff_minimiser beta : length beta = k ->
+  (Forall2 Qeq (mat_vec (normal_lhs cols w) beta) (normal_rhs cols w y) <->
+   forall beta', length beta' = k -> SSR cols w y beta <= SSR cols w y beta').
+Proof.
+  intros Hb. rewrite (normal_eq_orth beta Hb). split.
+  - intros H beta' _. now apply orth_minimises.
+  - apply minimiser_orth.
+Qed.
+
+End LeastSquares.
+
+(* ====================================================================== *)
+(* LinearLeastSquares                                                      *)
+(* ====================================================================== *)
+Lemma Forall_vn_nonneg l : Forall (Qle 0) l -> forall i, (i < length l)%nat -> 0 <= vn l i.
+Proof. intros F i Hi. rewrite Forall_forall in F. apply F. unfold vn. now apply nth_In. Qed.
+Lemma Forall_repeat_1 m : Forall (Qle 0) (repeat 1 m).
+Proof. induction m; cbn; constructor; [discriminate | assumption]. Qed.
+
+Definition weights_nonneg (w : option (list Q)) : Prop :=
+  match w with Some l => Forall (Qle 0) l | None => True end.
+
+Lemma lls_ok_inv nx y w cols beta : lls nx y w cols = FOk beta ->
+  let wl := weights_or_ones nx w in
+  length y = nx /\ length wl = nx /\ lls_solve cols wl y = Some beta.
+Proof.
+  unfold lls. destruct (nx =? length y)%nat eqn:E1; cbn [negb]; [|discriminate].
+  apply Nat.eqb_eq in E1. destruct w as [l|]; cbn [weights_or_ones].
+  - destruct (nx =? length l)%nat eqn:E2; cbn [negb]; [|discriminate]. apply Nat.eqb_eq in E2.
+    destruct (lls_solve cols l y) eqn:E3; [|discriminate]. intros H; inversion H; subst. auto.
+  - destruct (lls_solve cols (repeat 1 nx) y) eqn:E3; [|discriminate]. intros H; inversion H; subst.
+    rewrite repeat_length. auto.
+Qed.
+
+(* LinearLeastSquares returns a minimiser of the weighted sum of squared residuals; its weighted
+   residual is orthogonal to every term *)
+Theorem lls_minimises nx y w cols beta :
+  lls nx y w cols = FOk beta -> Forall (fun c => length c = nx) cols -> weights_nonneg w ->
+  let wl := weights_or_ones nx w in
+  length beta = length cols /\
+  (forall j, (j < length cols)%nat -> orth_at cols wl y beta j == 0) /\
+  (forall beta', length beta' = length cols -> SSR cols wl y beta <= SSR cols wl y beta').
+Proof.
+  intros H Hc Hw wl. apply lls_ok_inv in H as (Hy & Hwl & Hs). fold wl in Hwl, Hs.
+  unfold lls_solve in Hs. apply solve_checked_sound in Hs as (Heq & Hlb & _).
+  assert (Hk : length beta = length cols) by (rewrite Hlb; unfold normal_rhs; now rewrite map_length).
+  assert (Hwf : wf_design nx cols wl y) by (repeat split; assumption).
+  assert (Hwn : forall i, (i < nx)%nat -> 0 <= vn wl i).
+  { intros i Hi. apply Forall_vn_nonneg; [|now rewrite Hwl]. unfold wl. destruct w; [exact Hw | apply Forall_repeat_1]. }
+  split; [exact Hk|]. split.
+  - now apply (normal_eq_orth nx cols wl y Hwf beta Hk).
+  - now apply (normal_eq_iff_minimiser nx cols wl y Hwf Hwn beta Hk).
+Qed.
+
+(* ====================================================================== *)
+(* polynomials                                                             *)
+(* ====================================================================== *)
+Lemma qpow_pw x m : qpow x m == pw x m.
+Proof. induction m as [|m IH]; cbn [qpow pw]; [reflexivity|]. rewrite Qred_correct, IH. reflexivity. Qed.
+
+(* F evaluates the polynomial with the returned coefficients: Coefficients[i] multiplies x^i *)
+Lemma F_loop_spec t x xp y : F_loop t x xp y == y + xp * poly_eval t x.
+Proof.
+  revert xp y. induction t as [|c t IH]; intros xp y; cbn [F_loop].
+  - unfold poly_eval. cbn. ring.
+  - rewrite IH, !Qred_correct. unfold poly_eval. cbn [length sum_n]. rewrite vn_cons_O. cbn [pw].
+    rewrite (sum_n_ext (fun i => vn (c :: t) (S i) * pw x (S i)) (fun i => x * (vn t i * pw x i)))
+      by (intros i Hi; rewrite vn_cons_S; cbn [pw]; ring).
+    rewrite sum_n_scal. ring.
+Qed.
+Theorem F_is_poly_eval coeffs x v : polyF coeffs x = Some v -> v == poly_eval coeffs x.
+Proof.
+  destruct coeffs as [|c0 t]; [discriminate|]. cbn [polyF]. intros H; inversion H; subst.
+  rewrite F_loop_spec. unfold poly_eval. cbn [length sum_n]. rewrite vn_cons_O. cbn [pw].
+  rewrite (sum_n_ext (fun i => vn (c0 :: t) (S i) * pw x (S i)) (fun i => x * (vn t i * pw x i)))
+    by (intros i Hi; rewrite vn_cons_S; cbn [pw]; ring).
+  rewrite sum_n_scal. ring.
+Qed.
+Lemma polyF_some coeffs x : coeffs <> [] -> exists v, polyF coeffs x = Some v.
+Proof. destruct coeffs; [congruence|]. intros _. eexists. reflexivity. Qed.
+
+(* PolynomialRegression is LinearLeastSquares on the monomial basis 1, x, .., x^d *)
+Theorem polyreg_is_lls_on_monomials xs y w d :
+  polyreg xs y w (Z.of_nat d) = lls (length xs) y w (monomials d xs).
+Proof. unfold polyreg. destruct (Z.of_nat d <? 0)%Z eqn:E; [apply Z.ltb_lt in E; lia|]. now rewrite Nat2Z.id. Qed.
+Lemma monomials_len d xs : length (monomials d xs) = S d.
+Proof. unfold monomials. now rewrite map_length, seq_length. Qed.
+Lemma monomials_cols d xs : Forall (fun c => length c = length xs) (monomials d xs).
+Proof. unfold monomials. rewrite Forall_forall. intros c Hc. apply in_map_iff in Hc as (i & <- & _). apply map_length. Qed.
+Lemma monomials_Xe d xs j i : (j <= d)%nat -> (i < length xs)%nat -> Xe (monomials d xs) j i == pw (vn xs i) j.
+Proof.
+  intros Hj Hi. unfold Xe, monomials.
+  rewrite (nth_map_lt _ _ O []) by (rewrite seq_length; lia). rewrite seq_nth by lia. cbn [plus].
+  rewrite (vn_map _ _ 0) by exact Hi. apply qpow_pw.
+Qed.
+(* the fitted value of the monomial design is the polynomial *)
+Lemma monomials_fit d xs beta i : length beta = S d -> (i < length xs)%nat ->
+  fit_at (monomials d xs) beta i == poly_eval beta (vn xs i).
+Proof.
+  intros Hb Hi. unfold fit_at, poly_eval. rewrite monomials_len, Hb. apply sum_n_ext. intros j Hj.
+  rewrite monomials_Xe by (auto; lia). reflexivity.
+Qed.
+
+(* Horner form and the factor theorem *)
+Fixpoint peval (p : list Q) (x : Q) : Q := match p with [] => 0 | c :: t => c + x * peval t x end.
+Lemma poly_eval_peval p x : poly_eval p x == peval p x.
+Proof.
+  induction p as [|c t IH]; [reflexivity|]. unfold poly_eval in *. cbn [length sum_n peval]. rewrite vn_cons_O. cbn [pw].
+  rewrite (sum_n_ext (fun i => vn (c :: t) (S i) * pw x (S i)) (fun i => x * (vn t i * pw x i)))
+    by (intros i Hi; rewrite vn_cons_S; cbn [pw]; ring).
+  rewrite sum_n_scal, IH. ring.
+Qed.
+Fixpoint pquot (p : list Q) (a : Q) : list Q :=
+  match p with
+  | [] => []
+  | c :: t => match t with [] => [] | _ => peval t a :: pquot t a end
+  end.
+Lemma pquot_len p a : length (pquot p a) = pred (length p).
+Proof. induction p as [|c [|c' t] IH]; try reflexivity. cbn [pquot length pred] in *. now rewrite IH. Qed.
+Lemma pquot_spec p a x : peval p x == (x - a) * peval (pquot p a) x + peval p a.
+Proof.
+  induction p as [|c [|c' t] IH]; [cbn; ring | cbn; ring |].
+  change (pquot (c :: c' :: t) a) with (peval (c' :: t) a :: pquot (c' :: t) a).
+  change (peval (c :: c' :: t) x) with (c + x * peval (c' :: t) x).
+  change (peval (c :: c' :: t) a) with (c + a * peval (c' :: t) a).
+  change (peval (peval (c' :: t) a :: pquot (c' :: t) a) x) with (peval (c' :: t) a + x * peval (pquot (c' :: t) a) x).
+  rewrite IH. ring.
+Qed.
+Lemma pquot_zero p a : Forall (fun c => c == 0) (pquot p a) -> peval p a == 0 -> Forall (fun c => c == 0) p.
+Proof.
+  induction p as [|c [|c' t] IH]; intros Hq Hr; [constructor | |].
+  - constructor; [|constructor]. cbn in Hr. lra.
+  - change (pquot (c :: c' :: t) a) with (peval (c' :: t) a :: pquot (c' :: t) a) in Hq.
+    inversion Hq as [|? ? H1 H2]; subst.
+    assert (Ht : Forall (fun c => c == 0) (c' :: t)) by (apply IH; assumption).
+    constructor; [|exact Ht]. change (peval (c :: c' :: t) a) with (c + a * peval (c' :: t) a) in Hr.
+    rewrite H1 in Hr. lra.
+Qed.
+(* a polynomial with at least as many distinct roots as coefficients is zero *)
+Lemma poly_roots_zero m : forall p roots, (length p <= m)%nat -> length roots = m -> distinctQ roots ->
+  Forall (fun r => peval p r == 0) roots -> Forall (fun c => c == 0) p.
+Proof.
+  induction m as [|m IH]; intros p roots Hp Hr Hd Hz.
+  - destruct p; [constructor | cbn in Hp; lia].
+  - destruct roots as [|a rs]; [discriminate|]. destruct Hd as [Ha Hd]. inversion Hz as [|? ? Hza Hzr]; subst.
+    apply (pquot_zero p a); [|exact Hza].
+    apply (IH _ rs); [rewrite pquot_len; lia | cbn in Hr; lia | exact Hd |].
+    rewrite Forall_forall in *. intros r Hin. specialize (Hzr r Hin). specialize (Ha r Hin).
+    rewrite (pquot_spec p a r), Hza in Hzr.
+    assert (E : (r - a) * peval (pquot p a) r == 0) by lra.
+    apply Qmult_integral in E as [E|E]; [exfalso; apply Ha; lra | exact E].
+Qed.
